@@ -67,6 +67,12 @@ def table_rules(ctx, impls):
     ctx.floor(R, len(floor['impls']))
 
 
+# what a delegating impl of each operator must call (T-DELEG)
+DELEGATES_TO = {'Add': ('Add',), 'Mul': ('Mul',), 'Sub': ('Add',), 'Neg': ('Mul', 'Neg')}
+# hand-written kernels whose operator call on the payload legitimately sits in one branch only; C02.branches decides each path
+BRANCH_KERNELS = [('v1::Quadratic', 'Add', 'v1::Linear'), ('v1::Quadratic', 'Add', 'f64'), ('v1::Quadratic', 'Mul', 'f64'), ('v1::Quadratic', 'Add', 'v1::Quadratic')]
+
+
 def is_ops_call(c):
     return bool(re.search(r'ops::(Add|Sub|Mul|Neg)$', c.trait or '')) and c.item in ('add', 'sub', 'mul', 'neg')
 
@@ -96,6 +102,21 @@ def deleg_rules(ctx, impls):
             decided += 1
             ctx.bad(rid, 'T-DELEG', b.name, 'Neg performs no negation at all (only conversions)', b.site()); continue
         if has_switch or others or not opcalls or any(st['rv']['k'] == 'bin' for bi, st in f64ops):
+            # Not a straight-line delegation.  An impl that DOES delegate (it contains the operator call of the right
+            # kind on both operands) must do so on every path: the result of an operator may depend on nothing but the
+            # algebra of its operands, so a path that returns around the delegated call (a shortcut keyed on an id, a
+            # kind, a flag ...) computes something else.  The kernels whose operator call legitimately sits in one
+            # branch only (BRANCH_KERNELS) are decided path by path in C02.branches instead.
+            want = DELEGATES_TO[i['op']]; need = {1} if i['op'] == 'Neg' else {1, 2}
+            valid = [c for c in opcalls if ops_kind(c.trait) in want and need <= set().union(*[ctx.S.slice_operand(b, a).params for a in c.args])]
+            # the built-in operator on f64 payloads (the Constant/Constant arm of Function) is the same operation
+            fbin = {bi for bi, st in b.stmts() if st['rv']['k'] == 'bin' and st['rv'].get('ty') == 'f64' and st['rv']['op'] in want
+                    and need <= set().union(*[ctx.S.slice_operand(b, o).params for o in st['rv']['ops']])}
+            if valid and (i['lhs'], i['op'], i['rhs']) not in BRANCH_KERNELS:
+                if not T.must_pass(b, 0, return_blocks(b), {c.bb for c in valid} | fbin):
+                    decided += 1
+                    ctx.bad(rid, 'T-DELEG', b.name, 'the impl delegates to `%s` of its operands, but not on every path: a path returns without it (the result of an operator may not depend on anything but the algebra of its operands)' % '/'.join(want), b.site(valid[0].bb)); continue
+                weakly(ctx, rid, 'T-DELEG', b, 'not a straight-line delegation; every path returns through the operator applied to both operands'); continue
             ctx.undecided(rid, 'T-DELEG', b.site(), 'hand-written kernel (not a pure delegation)'); continue
         decided += 1
         kinds = [re.search(r'ops::(Add|Sub|Mul|Neg)$', c.trait).group(1) for c in opcalls]
@@ -794,8 +815,7 @@ def scaled_in_loop(ctx, b, adt, field):
 
 def branches_rules(ctx):
     R = 'C02.branches'
-    specs = [('v1::Quadratic', 'Add', 'v1::Linear'), ('v1::Quadratic', 'Add', 'f64'), ('v1::Quadratic', 'Mul', 'f64'), ('v1::Quadratic', 'Add', 'v1::Quadratic')]
-    for lhs, op, rhs in specs:
+    for lhs, op, rhs in BRANCH_KERNELS:
         b = ctx.F.one(lhs, op.lower(), trait=op, targs=[rhs])
         if b is None:
             ctx.lost(R + '/%s_%s_%s' % (lhs, op, rhs), 'impl'); continue
@@ -853,6 +873,11 @@ def iter_rules(ctx):
             read = (a, f) in acc or any(x[1] == f and x[0].endswith(a) for x in acc)
             ctx.check(read and rs.has_field(a, f), R + '/%s/%s' % (ty.lstrip('&').split('::')[-1], f), 'T-COVER', b.name,
                       'term iterator never reads %s.%s' % (a, f) if not read else 'the returned term iterator does not depend on %s.%s (it is only read on the side)' % (a, f), b.site())
+        if ty != '&v1::Linear':
+            # the ids this iterator yields are SortedIds built, in its cone, by constructions that sort (C02.sorted)
+            probs, n = cone_constructions(ctx, b)
+            ctx.check(n > 0 and not probs, R + '/%s/sorted-ids' % ty.lstrip('&').split('::')[-1], 'T-CARRY', b.name,
+                      'the term iterator does not yield sorted ids however the operand is stored: %s' % ('; '.join(probs) or 'no SortedIds construction in its cone'), b.site())
         restr = sorted({x.item for x in rs.call_objs if x.item in ('take', 'skip', 'step_by', 'take_while', 'skip_while', 'nth')})
         ctx.check(not restr, R + '/%s/all-terms' % ty.lstrip('&').split('::')[-1], 'T-LOOPMUST', b.name, 'iterator drops terms: %s' % restr, b.site())
     b = ctx.F.one('&v1::Function', 'into_iter', trait='IntoIterator')
@@ -1195,6 +1220,92 @@ def kernel_rules(ctx):
     ctx.floor(R, 9)
 
 
+# =============================================================================== C02.sorted
+# The term iterators yield SORTED ids however the operand is stored, and every map keyed by SortedIds relies on it
+# (equal monomials must be equal keys).  `SortedIds` is a tuple struct around Vec<u64>; the invariant holds iff EVERY
+# place that builds one (the aggregate `SortedIds(v)`) gets a sorted `v`.  Ways of having a sorted vector (one comment
+# per entry):
+#   v.sort() / sort_unstable() / sort_by(..) / sort_by_key(..) on every path to the aggregate, nothing appended afterwards
+#   it.sorted() / sorted_unstable() .. collect()                       (itertools)
+#   collected from a BTreeSet / BTreeMap iteration                     (ordered containers)
+#   Vec::new() / vec![] / Vec::with_capacity(..) never written to      (empty)
+#   the inner vector of an existing SortedIds, not written to          (already sorted)
+SORT_ITEMS = re.compile(r'^(sort|sort_unstable|sort_by|sort_by_key|sort_unstable_by|sort_unstable_by_key|sort_by_cached_key)$')
+SORTED_ADAPTORS = re.compile(r'^(sorted|sorted_unstable|sorted_by|sorted_by_key|sorted_unstable_by|sorted_unstable_by_key|sorted_by_cached_key)$')
+SORTED_IDS = 'sorted_ids::SortedIds'
+
+
+def unsorted_constructions(ctx, b):
+    """[(bb, why)] for every aggregate `SortedIds(v)` in body b whose `v` is not sorted by construction; second result:
+    number of such aggregates looked at"""
+    bad = []; n = 0
+    for bi, st in find_aggregates(b, SORTED_IDS):
+        if not st['rv']['ops']: continue
+        n += 1
+        v = st['rv']['ops'][0]
+        fs, root, _ = T.access_path(b, v, transparent=T.TRANSPARENT_NOCLONE)
+        # sorts and other writes applied to the same vector
+        sorts = []; writes = []
+        for c in b.calls:
+            if not c.args or c.args[0]['k'] not in ('copy', 'move'): continue
+            r = T.access_path(b, c.args[0], transparent=T.TRANSPARENT_NOCLONE)[1]
+            if r != root or root is None: continue
+            if SORT_ITEMS.match(c.item) and re.search(r'slice|Vec', c.name): sorts.append(c)
+            elif T.MUT_CALL.search(c.name) and '&mut' in b.locals[c.args[0]['pl']['l']]: writes.append(c)
+        if sorts:
+            if not T.must_pass(b, 0, {bi}, {c.bb for c in sorts}):
+                bad.append((bi, 'a path reaches the construction without sorting the ids')); continue
+            late = [w for w in writes if w.target >= 0 and not T.must_pass(b, w.target, {bi}, {c.bb for c in sorts})]
+            if late: bad.append((bi, 'ids are written (%s) after the sort' % sorted({w.item for w in late})))
+            continue
+        e = T.expr(b, v)
+        calls = T.expr_calls(e)
+        if any(SORTED_ADAPTORS.match(x[1]) for x in calls) and not writes: continue
+        if any(x[1] in ('collect', 'from_iter', 'into_iter', 'iter', 'keys', 'into_keys') and re.search(r'BTreeSet|BTreeMap|btree_set::|btree_map::', x[2]) for x in calls) and not writes: continue
+        se = T.strip_wrappers(e)
+        if se[0] == 'call' and se[1] in ('new', 'with_capacity', 'default') and 'Vec' in se[2] and not writes: continue
+        if se[0] == 'place' and se[2] and _adt_is(se[2][-1][0], SORTED_IDS) and not writes: continue
+        bad.append((bi, 'the ids (%s) are not sorted here' % T.expr_str(e, 3)))
+    return bad, n
+
+
+def cone_constructions(ctx, b):
+    """unsorted constructions / number of constructions of SortedIds in the call-graph cone of b"""
+    probs = []; n = 0
+    for cb in cone_of(ctx, b):
+        if cb.kind == 'fn' and (cb.hdr.get('trait') or '').endswith('Clone'): continue      # derived Clone copies a sorted vector
+        bd, k = unsorted_constructions(ctx, cb); n += k
+        probs += ['%s: %s' % (cb.name.split('::')[-1] if cb.kind == 'fn' else 'closure in ' + cb.name.split('::')[-2], w) for bi, w in bd]
+    return probs, n
+
+
+def sorted_rules(ctx):
+    """every construction of a SortedIds in the crate establishes the order (see the table above); a constructor that
+    trusts its caller (`from_sorted`) moves the obligation to data the SDK does not control (row > column entries).
+    One instance per public way of making a SortedIds (decided on its cone, so `add` written through `new` is the same
+    thing), plus one per other body that builds the struct directly."""
+    R = 'C02.sorted'
+    anchors = [('new', None, None), ('empty', None, None), ('add', 'Add', None), ('from_iter', 'FromIterator', ['u64']), ('from', 'From', ['std::vec::Vec<u64>'])]
+    own = set()
+    for item, trait, targs in anchors:
+        b = ctx.F.one(SORTED_IDS, item, trait=trait, targs=targs)
+        rid = '%s/SortedIds::%s' % (R, item)
+        if b is None:
+            ctx.lost(rid, 'SortedIds::%s' % item); continue
+        ctx.fn(b); own.add(b.name)
+        probs, n = cone_constructions(ctx, b)
+        ctx.check(n > 0 and not probs, rid, 'T-CARRY', b.name, 'a SortedIds is built from ids that are not sorted: %s' % ('; '.join(probs) or 'no construction found'), b.site(), constructions=n)
+    for b in sorted(ctx.F.bodies.values(), key=lambda x: x.name):
+        if b.kind not in ('fn', 'closure') or b.name in own: continue
+        if b.kind == 'fn' and (b.hdr.get('trait') or '').endswith('Clone'): continue
+        bad, n = unsorted_constructions(ctx, b)
+        if not n: continue
+        ctx.fn(b)
+        rid = '%s/direct/%s' % (R, re.sub(r"&?'\w+ ", '', b.name).replace(' ', ''))
+        ctx.check(not bad, rid, 'T-CARRY', b.name, 'a SortedIds is built from ids that are not sorted: %s' % '; '.join(w for bi, w in bad), b.site(bad[0][0]) if bad else b.site(), constructions=n)
+    ctx.floor(R, len(anchors))
+
+
 def sum_rules(ctx):
     """`impl Sum / Product for X`: the accumulation starts from the identity of the operation (0 / 1) and
     combines with that operation.  Decided on the constructors of Self that occur in the body, whatever
@@ -1236,4 +1347,5 @@ def sum_rules(ctx):
 def check(ctx):
     impls = op_impls(ctx)
     table_rules(ctx, impls); deleg_rules(ctx, impls); dispatch_rules(ctx); branches_rules(ctx); iter_rules(ctx); keys_rules(ctx); kernel_rules(ctx)
+    sorted_rules(ctx)
     sum_rules(ctx)
